@@ -45,7 +45,9 @@ Definition is_point_arg (s : string) : bool :=
   mem s ["x"; "xnew"; "x - self.model.xbase"; "x - control.model.xbase"].
 Definition is_resid_arg (s : string) : bool :=
   mem s ["rvec_list[0, :]"; "np.mean(rvec_list[:num_samples_run, :], axis=0)"].
-Definition is_nx_arg (s : string) : bool := mem s ["self.nx"; "control.nx"].
+(* "eval_nx" is the point number captured right after the evaluation by the run_in_parallel initialisation loops, which
+   commit their points later (its provenance is checked by C03_deferred_point_numbers_coherent) *)
+Definition is_nx_arg (s : string) : bool := mem s ["self.nx"; "control.nx"; "eval_nx"].
 Definition commit_args_ok (callee : string) (args : list string) : bool :=
   match callee, args with
   | "save_point", [x; r; ns; en; ab] => is_point_arg x && is_resid_arg r && streq ns "num_samples_run" && is_nx_arg en && streq ab "x_in_abs_coords=True"
